@@ -161,6 +161,7 @@ def run(sim, params):
                 d["dend"] = step
             elif kind == "deploy.fail":
                 d["failed"] = True
+                d["dfail"] = step
             elif kind == "undeploy.start":
                 d["ustart"].append(step)
             elif kind == "undeploy.end":
@@ -187,6 +188,13 @@ def run(sim, params):
             if live is not True:
                 raise Violation("deploy_returned_early", f"request #{i} deploy({r['name']}) returned while its connector is not deployed (live={live}, connector present={has}); {case}",
                                 signature="deploy_returned_early")
+    # 2b. a request is forwarded to a (lazy) connector only once its deployment completed
+    for e in ev:
+        if e[1] == "use" and not e[4]:
+            d = inst.get((e[2], e[3]))
+            if d is not None and d["dstart"] is not None and d["dstart"] <= e[0] and (d["dend"] is None or e[0] < d["dend"]) and not d["ustart"] and not (d["failed"] and d["dfail"] <= e[0]):
+                raise Violation("used_before_deployed", f"a request reached the connector of {e[2]} at step {e[0]} while its deploy() (started at {d['dstart']}) "
+                                f"had not completed (end={d['dend']}); {case}", signature="used_before_deployed")
     # 3. inner never undeployed while a wrapper of it is live
     for d in inst.values():
         outer = d["name"]
